@@ -84,4 +84,29 @@ _seq("C26", "filters meet the configured rate",
      "the statistical clause is decided by an exact sizing/bit equality plus a fixed-universe measurement, not by a statistical test over random data; filters below 50 entries are a catalogued finding",
      "bounded grid enumeration with an exact construction oracle", budget={"quick": 150, "thorough": 1500})
 
+_seq("C06", "acknowledgements are truthful",
+     "a 4-batch history is re-run with a failure at every store call position (quick: singly; thorough: every ordered pair) over 4 store variants; after two further fault-free flushes and a Merge the rows visible on this and on a fresh engine must equal the rows of nil-acknowledged batches",
+     "plain build, default schedule (store calls of a sequential history are deterministic); MetaStore with atomic Update",
+     "exhaustive fault-position enumeration over a recorded history", level="fault_enumeration")
+_seq("C13", "merge is all-or-nothing",
+     "Merge over 3-4 files in 1-2 groups is re-run with a failure at every position of every store call kind (iterator, CreateFile, OpenFile, Seek, Read, Write, Close, Abort, Update, TombstoneFile), singly and in pairs; committed-xor-unchanged oracle on both stores, call log, return values and query answers; single-flight with a Merge held inside CreateFile",
+     "plain build; MetaStore with atomic Update",
+     "exhaustive fault-position enumeration over a recorded history", level="fault_enumeration")
+_seq("C15", "filesystem store is crash-consistent",
+     "every prefix of the os-level operation log of 4 histories and of every single-fault abort path yields process-crash and power-loss directory states (torn writes, unsynced data absent/present, every prefix or subset of unsynced directory operations); each distinct state is materialised and recovered by a fresh engine",
+     "verdict is relative to the stated durability model; the operation log is produced by the implementation itself through the os shim placed by the build overlay",
+     "exhaustive crash-point and power-loss state enumeration from the implementation's own operation log", level="fault_enumeration")
+_seq("C16", "FileSystemDataStore behaves like its specification",
+     "breadth-first search over call sequences of 2-3 writer slots with a scripted name draw (forced collisions), Close failures and slot reuse; after every step the real directory, the scan and OpenFile are compared byte for byte with a map model",
+     "the name-draw hook is added through the build overlay (verif tag); tombstoning a pointer whose name was re-drawn after its writer aborted is outside the contract and not explored",
+     "explicit-state breadth-first search over call sequences of the real store with a reference model", level="model_checking")
+_seq("C19", "corruption fails cleanly",
+     "exhaustive single-byte, window, truncation, extension and splice mutations plus CRC-consistent framing-field grids of engine-written files (with and without row data hashes), each read through every helper and queried in two flows, in child processes with an address-space limit",
+     "content oracles are off for files without row data hashes (corruption is then undetectable by design); UncompressedSize left valid",
+     "exhaustive mutation enumeration with process isolation", level="fault_enumeration", budget={"quick": 120, "thorough": 1500})
+_seq("C27", "silent by default",
+     "all single-fault flush and merge runs, corrupt-file queries, absent-filter files, Stop deadlines against wedged stores and a plain lifecycle run in child processes whose descriptors 1 and 2 are regular files that must stay empty",
+     "Logger nil; the harness itself writes nothing in the child",
+     "fault-scenario enumeration with descriptor capture", level="fault_enumeration")
+
 NOT_YET = {}
